@@ -144,9 +144,19 @@ def stratified(hs, rng, limit):
         classes.setdefault(key, []).append(h)
         if sigs:
             single.setdefault(_freeze(sigs[-1]), []).append(h)       # the signature of the LAST operation alone
+    def priority(sig):
+        # a defect at ONE comparison site / branch shows only when that site is the only one involved: signatures whose
+        # set of match kinds (or sequence of branches) has exactly one element come first
+        best = 2
+        for part in sig:
+            if isinstance(part, tuple) and part and part[0] == "#set":
+                best = min(best, 0 if len(part) == 2 else 1 if len(part) <= 3 else 2)
+            elif isinstance(part, tuple) and part and all(isinstance(x, str) for x in part):
+                best = min(best, 0 if len(part) == 1 else 1)
+        return best
     out, seen = [], set()
     # 1. one behaviour for every distinct single-operation signature (which branches the operation under test took)
-    for k in sorted(single, key=lambda k: (len(single[k]), repr(k))):
+    for k in sorted(single, key=lambda k: (priority(k), len(single[k]), repr(k))):
         rng.shuffle(single[k])
         h = single[k][0]
         if id(h) not in seen and len(out) < limit:
